@@ -24,9 +24,10 @@ props = {}
 # ---------------- C01 / C08: parser ----------------
 parser_quick = [J("parser","VH_holes",1), J("parser","VH_holes",2), J("parser","VH_free",1), J("parser","VH_free",2)] + \
                [J("parser","VH_template",w) for w in (0,2,3,4,5,6,7,8,9,10,11,12,13,14,15,16,17,18,19,20)] + [J("parser","VH_reserved")]
-parser_thorough = parser_quick + [J("parser","VH_free",3), J("parser","VH_template",1), J("parser","VH_holes",3, max_instrs=6000000)]
+parser_quick += [J("parser","VH_mutate",pr,0) for pr in range(14)]
+parser_thorough = parser_quick + [J("parser","VH_mutate",pr,m) for pr in range(14) for m in (1,2)] + [J("parser","VH_free",3), J("parser","VH_template",1), J("parser","VH_holes",3, max_instrs=6000000)]
 props["C01"] = dict(title="Accepted programs get the syntax tree the documented grammar prescribes",
-  bounds="real Parse() on: operand (hole operand)* ; with 1-2 (thorough 3) tokens of arbitrary type among all 50; 1-2 (thorough 3) fully arbitrary tokens; 14 statement/expression templates with 1-3 arbitrary tokens (prefix, suffix chains, parentheses, dangling else, assignment chains, declarations, functions, for headers, literals, unary/power). Longer programs only through the composition argument of DESIGN §4",
+  bounds="real Parse() on: operand (hole operand)* ; with 1-2 (thorough 3) tokens of arbitrary type among all 50; 1-2 (thorough 3) fully arbitrary tokens; 21 statement/expression templates with 1-3 arbitrary tokens; 14 valid programs with every single token replaced by an arbitrary one (thorough: also one inserted / one deleted) (prefix, suffix chains, parentheses, dangling else, assignment chains, declarations, functions, for headers, literals, unary/power). Longer programs only through the composition argument of DESIGN §4",
   assumptions=["oracle: reference parser written from grammer.txt + the amendments stated in the property (DESIGN A.1, E.2)", "all tokens on one line (the parser's undocumented line-break rule inside declarations is outside the domain)", "'adding parentheses never changes what a program prints' is reduced to tree equality plus C18e (eval(Grouping e) = eval e)"]+A_COMMON[:1],
   quick=parser_quick, thorough=parser_thorough, only_ids="^(tree-is-the-reference-tree|grammatical-sequence-is-accepted)$")
 lexer_front = [J("lexer","VH_step",n,0) for n in (1,2,4)] + [J("lexer","VH_whole",1), J("lexer","VH_whole",2)]
@@ -124,10 +125,10 @@ props["C15"] = dict(title="print writes each value faithfully, newline-terminate
   thorough=[J(I,"VH_print",s,r) for s in (0,1,2) for r in (0,1)]+[J(I,"VH_printNested",n,o) for n in (0,1,2) for o in (0,1)]+[J(I,"VH_printShared",w) for w in range(3)]+[J(I,"VH_binary",a,b,0) for (a,b) in ((0,0),(1,1),(2,1))],
   only_ids="^(print-.*|printed-.*|nested-.*|bin-string-result|bin-result-is-string)$")
 props["C16"] = dict(title="A value behaves the same however it was produced",
-  bounds="11 consumers (both operand positions of every binary operator, unary operators, condition, print alone / inside an array, array index, math built-in argument, object property round trip, delete key, self-equality) run on two host representations of the same value: string vs rune slice (1 code point; thorough 0-2), float64 vs int64, float64 vs int (|n| <= 2^53), and the result of each of 16 producers (every math built-in, length, bitwise/shift/not, addition, modulo, concatenation, run on symbolic arguments) vs the canonical float64/string of the same value; representation pairs come from the reachable-kind inventory and from what the producers actually yield, so the check is as wide as the tree's representations",
+  bounds="11 consumers (both operand positions of every binary operator, unary operators, condition, print alone / inside an array, array index, math built-in argument, object property round trip, delete key, self-equality) run on two host representations of the same value: string vs rune slice (1 code point; thorough 0-2), float64 vs int64, float64 vs int (|n| <= 2^53), and the result of each of 16 producers (every math built-in, length, bitwise/shift/not, addition, modulo, concatenation, run on symbolic arguments) vs the canonical float64/string of the same value; representation pairs come from the reachable-kind inventory and from what the producers actually yield; plus 6 node kinds evaluated with operands as computed expressions vs as literal nodes, so the check is as wide as the tree's representations",
   assumptions=["a pair that the tree cannot produce is not checked (premise false)"]+A_VALUES+A_COMMON[:3],
-  quick=[J(I,"VH_rel",c,1,w) for c in (0,1,2) for w in range(11)]+[J(I,"VH_rel",3,p,w) for p in range(16) for w in (0,3,4,6,7)],
-  thorough=[J(I,"VH_rel",c,n,w) for c in (0,1,2) for w in range(11) for n in ((0,1,2) if c==0 else (1,))]+[J(I,"VH_rel",3,p,w) for p in range(16) for w in range(11)])
+  quick=[J(I,"VH_rel",c,1,w) for c in (0,1,2) for w in range(11)]+[J(I,"VH_rel",3,p,w) for p in range(16) for w in (0,3,4,6,7)]+[J(I,"VH_relExpr",w,1,3) for w in range(6)],
+  thorough=[J(I,"VH_rel",c,n,w) for c in (0,1,2) for w in range(11) for n in ((0,1,2) if c==0 else (1,))]+[J(I,"VH_rel",3,p,w) for p in range(16) for w in range(11)]+[J(I,"VH_relExpr",w,sz,5) for w in range(6) for sz in (0,1,2)])
 
 # ---------------- C17 ----------------
 props["C17"] = dict(title="Math built-ins compute their mathematical function; misuse is a reported error",
@@ -140,9 +141,9 @@ props["C17"] = dict(title="Math built-ins compute their mathematical function; m
 props["C18"] = dict(title="Meaning is invariant under layout, digit script, synonyms, renaming, parentheses",
   bounds="(a) a blank/tab/CR/LF/line comment/block comment inserted at every chunk boundary of sources of n<=2 code points (whole scans, relational) plus C09's step lemma for longer texts; (b) digit-script swap on number chunks of n<=3 (thorough 5) and on numeric strings at run time; (c) both spellings of and/or in the lexer (C09) and in eval(Logical); (d) every name a symbolic code point in the scope programs of C03; (e) eval(Grouping P) = eval(P) for every outcome of P, and the parser yields Grouping for parentheses (C01 template); (f) unselected arms / function bodies / code after return are never evaluated (C04/C05 reference traces)",
   assumptions=["whole-program composition of the six families is by the argument of DESIGN §4", "diagnostics quoting source text (renamed identifiers, '(group …)' in the missing-property message) are compared on line and message template only"],
-  quick=[J("lexer","VH_blank",1), J("lexer","VH_blank",2), J("lexer","VH_swap",3), J(I,"VH_logical",0,0), J(I,"VH_logical",0,1), J(I,"VH_grouping",0), J(I,"VH_grouping",1), J(I,"VH_scope",2,1, loop_fuel=300), J("parser","VH_template",2), stmt_quick[0]],
+  quick=[J("lexer","VH_blank",1), J("lexer","VH_blank",2), J("lexer","VH_swap",3), J(I,"VH_logical",0,0), J(I,"VH_logical",0,1), J(I,"VH_grouping",0), J(I,"VH_grouping",1), J(I,"VH_scope",2,1, loop_fuel=300), J("parser","VH_template",2), stmt_quick[0]]+[J(I,"VH_relExpr",w,1,5) for w in (0,1,3)],
   thorough=[J("lexer","VH_blank",n) for n in (1,2,3)]+[J("lexer","VH_swap",5), J(I,"VH_swapNum",2), J(I,"VH_logical",1,0), J(I,"VH_logical",1,1), J(I,"VH_grouping",0), J(I,"VH_grouping",1), J(I,"VH_grouping",2), J(I,"VH_scope",3,1, loop_fuel=300), J("parser","VH_template",2)]+stmt_thorough,
-  only_ids="^(layout-.*|swap-.*|logical-.*|result-is-.*|right-.*|left-evaluated-once|grouping-.*|read-.*|diagnostic-expected-by-the-scope-model|every-expected-read-happened|scope-error-reported|tree-is-the-reference-tree|evaluation-sequence-as-reference|evaluations-match-reference)$")
+  only_ids="^(literal-operand-.*|layout-.*|swap-.*|logical-.*|result-is-.*|right-.*|left-evaluated-once|grouping-.*|read-.*|diagnostic-expected-by-the-scope-model|every-expected-read-happened|scope-error-reported|tree-is-the-reference-tree|evaluation-sequence-as-reference|evaluations-match-reference)$")
 
 # ---------------- C19 / C20 ----------------
 props["C19"] = dict(title="Exit status and output streams classify every run correctly",
@@ -151,9 +152,9 @@ props["C19"] = dict(title="Exit status and output streams classify every run cor
   quick=[J("main","VH_cli",0,1), J("main","VH_cli",1,3), J("main","VH_cli",1,4), J("main","VH_cli",2,2), J("main","VH_cli",3,1)]+[J("main","VH_outcome",c) for c in range(4)]+[J("main","VH_input",n,f) for n in (0,1,2,3) for f in (0,1)],
   thorough=[J("main","VH_cli",0,1)]+[J("main","VH_cli",1,n) for n in (1,2,3,4,5)]+[J("main","VH_cli",2,2), J("main","VH_cli",3,1)]+[J("main","VH_outcome",c) for c in range(4)]+[J("main","VH_input",n,f) for n in (0,1,2,3) for f in (0,1)])
 props["C20"] = dict(title="In the REPL a failed line never affects later lines; expression values echo",
-  bounds="the real runPrompt/run on sessions of 1-2 (thorough 3) lines drawn from a pool of 8 representative lines (bare expression, print, lexical error, syntax error, two runtime errors, declaration, built-in call): the session's stdout/stderr must be the concatenation of the responses each line gives as the only line of a fresh process (package-level state restored to its post-initialisation value)",
+  bounds="the real runPrompt/run on sessions of 1-2 (thorough 3) lines drawn from a pool of 8 representative lines (bare expression, print, lexical error, syntax error, two runtime errors, declaration, built-in call): plus sessions that repeat one line 12 (thorough 40) times before any other line (state building up over a session); the session's stdout/stderr must be the concatenation of the responses each line gives as the only line of a fresh process (package-level state restored to its post-initialisation value)",
   assumptions=["A-stdin: bufio.Scanner delivers one line per Scan", "lines that call the input built-in are outside the property's pool"],
-  quick=[J("main","VH_repl",1), J("main","VH_repl",2), J("main","VH_replEcho")], thorough=[J("main","VH_repl",1), J("main","VH_repl",2), J("main","VH_repl",3), J("main","VH_replEcho")])
+  quick=[J("main","VH_repl",1), J("main","VH_repl",2), J("main","VH_replEcho"), J("main","VH_replRepeat",12, max_instrs=30000000)], thorough=[J("main","VH_repl",1), J("main","VH_repl",2), J("main","VH_repl",3), J("main","VH_replEcho"), J("main","VH_replRepeat",12, max_instrs=30000000), J("main","VH_replRepeat",40, max_instrs=90000000)])
 
 # ---------------- C07: union of panic obligations ----------------
 props["C07"] = dict(title="No program can make the interpreter terminate abnormally",
@@ -163,8 +164,12 @@ props["C07"] = dict(title="No program can make the interpreter terminate abnorma
 
 props["C01"]["selftest"] = [J("parser","VH_selftest")]
 props["C08"]["selftest"] = [J("parser","VH_selftest"), J("lexer","VH_selftest")]
-for pid in ("C02","C04","C05","C06","C11","C12","C15"):
+for pid in ("C02","C03","C04","C05","C06","C07","C11","C12","C13","C14","C15","C16","C17"):
     props[pid]["selftest"] = [J(I,"VH_selftest")]
+props["C18"]["selftest"] = [J(I,"VH_selftest"), J("lexer","VH_selftest")]
+props["C10"]["selftest"] = [J("lexer","VH_selftest")]
+props["C19"]["selftest"] = [J("main","VH_selftest")]
+props["C20"]["selftest"] = [J("main","VH_selftest")]
 json.dump(props, open("/verif/harness/jobs.json","w"), indent=1, ensure_ascii=False)
 print("jobs.json written:", {k:(len(v["quick"]),len(v.get("thorough",[]))) for k,v in props.items()})
 
